@@ -1,0 +1,6 @@
+//go:build verif
+
+package addrquota
+
+// C34IPKey exposes the bucket key derivation to the verification harness (property C34).
+func C34IPKey(ip string) string { return ipKey(ip) }
